@@ -572,11 +572,16 @@ def run_c28(res, tier, rng, binary):
         t2 = sorted(rng.sample(ALLT, 2))
         big = [rng.choice(ALLT)]
         runs = [("Codec_c28_a.cfg", dict(Types=sorted(set(t2) | set(big)), BigTypes=big, PathLens=PATHS, NameLens=NAMES, ColCounts=COUNTS, MaxCmds=1)),
-                ("Codec_c28_b.cfg", dict(Types=big, BigTypes=big, PathLens=[22, 300], NameLens=[1, 32, 255, 300], ColCounts=[2, 255, 256], MaxCmds=3, TwoBuckets=True, BigPayload=0))]
+                ("Codec_c28_b.cfg", dict(Types=big, BigTypes=big, PathLens=[rng.choice([22, 255, 300, 526])], NameLens=[1, 32, 300], ColCounts=[2, 256],
+                                         MaxCmds=3, TwoBuckets=True, BigPayload=0))]
     else:
         big = sorted(rng.sample(ALLT, 3))
+        one = rng.choice(ALLT)
         runs = [("Codec_c28_a.cfg", dict(Types=ALLT, BigTypes=big, PathLens=PATHS, NameLens=NAMES, ColCounts=COUNTS, MaxCmds=1)),
-                ("Codec_c28_b.cfg", dict(Types=sorted(set(rng.sample(ALLT, 3)) | {big[0]}), BigTypes=big[:1], PathLens=[22, 255, 526], NameLens=NAMES, ColCounts=COUNTS, MaxCmds=3, TwoBuckets=True))]
+                ("Codec_c28_b.cfg", dict(Types=sorted(set(rng.sample(ALLT, 3)) | {big[0]}), BigTypes=big[:1], PathLens=[22, 255, 526], NameLens=NAMES,
+                                         ColCounts=COUNTS, MaxCmds=3, TwoBuckets=True, BigPayload=0)),
+                ("Codec_c28_c.cfg", dict(Types=[one], BigTypes=[one], PathLens=[22, 300], NameLens=[31, 300], ColCounts=[1, 2], MaxCmds=3,
+                                         TwoBuckets=True, BigPayload=40000))]
     tg_cases = []
     ovf = None
     for name, kw in runs:
